@@ -24,6 +24,8 @@ MUTANTS = [
     # split: the children fill a batch, the parent (whose Commit the input sees) sits in the next one
     ("M_SeqCommit", dict(core.SPLIT, MaxId="22")),
     ("M_TimerFlushesAny", dict(core.SPLIT, MaxId="22")),
+    # a child held by the join-like action right behind the split: Spawn's closing time-outs flush it before the parent goes on
+    ("M_SpawnFlushesBusy", dict(core.SPLIT, MaxId="22", Classes='{"P", "Y"}')),
     # a selective join-like action: an event its selector does not match must still go through it while it holds a run
     ("M_BusyTakesAll", {"Classes": '{"H", "N", "C"}', "Strs": '{"a"}', "_cfg": "Pipeline_props.cfg"}),
     # refused by the input's own PassEvent (the file input after a restart): the pooled event goes back exactly once
@@ -53,6 +55,8 @@ def run(ctx, pid=PID, families=(("commit", 120, 600), ("retry", 60, 300)), mutan
           ctx.tlc_expect_ok("Pipeline", "Pipeline_base.cfg", timeout=1500, deadlock=False, overrides=dict(core.SPLIT), name="Pipeline/split-batch2")
       ctx.tlc_expect_ok("Pipeline", "Pipeline_res.cfg", timeout=1500, deadlock=False,
                       overrides=dict(core.SPLIT, HasDQ="TRUE", MaxFails="2", MaxId="24" if thorough else "22"), name="Pipeline/split-dq-residual")
+      ctx.tlc_expect_ok("Pipeline", "Pipeline_base.cfg", timeout=1500, deadlock=False,
+                      overrides=dict(core.SPLIT, Classes='{"P", "Y", "H"}'), name="Pipeline/split-held-child")
     d2 = ctx.tlc("Pipeline", "Pipeline_d2.cfg", timeout=900, deadlock=False,
                  overrides={"HasDQ": "TRUE", "MaxFails": "2", "Classes": '{"P"}', "Strs": '{"a"}'}, name="Pipeline/dq-D2")
     if d2.ok:
@@ -76,7 +80,8 @@ def run(ctx, pid=PID, families=(("commit", 120, 600), ("retry", 60, 300)), mutan
         run_no += 1
     for ov in ({}, {"BatchCount": "2"}, {"HasDQ": "TRUE", "MaxFails": "2", "Classes": '{"P"}'},
                {"Classes": '{"P", "H", "C"}', "Strs": '{"a"}', "MaxId": "4"}, {"Classes": '{"N", "H", "C"}', "Strs": '{"a"}', "MaxId": "4"},
-               {"Capacity": "1", "Classes": '{"P", "D", "R", "X"}'}, dict(core.SPLIT), dict(core.SPLIT, BatchCount="1", Classes='{"P", "S", "H"}')):
+               {"Capacity": "1", "Classes": '{"P", "D", "R", "X"}'}, dict(core.SPLIT), dict(core.SPLIT, BatchCount="1", Classes='{"P", "S", "H"}'),
+               dict(core.SPLIT, Classes='{"P", "Y", "H"}')):
         g = []
         for lines, steps in core.simulated_schedules(ctx, 60 if thorough else 12, ov):
             scen.append(core.scripted(run_no, "sim-%d" % run_no, lines, steps, core.consts_of(ov)))
